@@ -122,7 +122,8 @@ def corpus():
     C = []
 
     def add(shape, nterms, rules, meta=None, tmeta=None):
-        C.append(G(rules, nterms, meta, tmeta, shape))
+        used = max([TERMS.index(x) + 1 for _, alts in rules for a in alts for x in a if x in TERMS] + [1])
+        C.append(G(rules, max(nterms, used), meta, tmeta, shape))
 
     add("nullable-mid", 3, [("S", [["a", "B", "c"]]), ("B", [[], ["b"]])])
     add("left-rec-list", 2, [("S", [["S", "a"], ["a"]])])
